@@ -228,7 +228,7 @@ def main():
             cases = mod.corpus(ctx)
             nseeds = int(os.environ.get('VERIF_NSEEDS', '4' if tier == 'thorough' else '1'))
             for k in range(nseeds):     # several PRNG seeds in the thorough tier; every case carries its seed in the evidence histogram
-                ctx['seed'] = seed + k
+                ctx['seed'] = seed + k; ctx['seed_index'] = k   # seed-independent (exhaustive) streams are generated for index 0 only
                 cases += mod.generate(ctx)
             ctx['seed'] = seed
         lines = [c.line for c in cases]
